@@ -28,6 +28,21 @@ Definition od_eqb (a b : list (string * list Q)) : bool :=
 Definition av_eqb (a b : option (list Q)) : bool := option_eqb qlist_eqb a b.
 Definition attrs_eqb (a b : attrs Q) : bool :=
   list_eqb (fun x y => String.eqb (fst x) (fst y) && av_eqb (snd x) (snd y)) a b.
+Arguments RVals {T V W}. Arguments RSub {T V W}. Arguments RDet {T V W}.
+Definition det_eqb (d : detector Q Q) (ax : axes Q) (vals : list Q) (at_ : attrs Q) : bool :=
+  axes_eqb (d_axes d) ax && qlist_eqb (d_vals d) vals && attrs_eqb (d_attrs d) at_.
+Definition rdet_eqb (r : result Q Q (field Q)) (ax : axes Q) (vals : list Q) (at_ : attrs Q) : bool :=
+  match r with RDet d => det_eqb d ax vals at_ | _ => false end.
+Definition rflat_eqb (r : result Q Q (field Q)) (coords : list (pos Q)) (vals : list Q) : bool :=
+  match r with RDet d => poslist_eqb (flat_coords (d_axes d)) coords && qlist_eqb (d_vals d) vals | _ => false end.
+Definition rvals_close (tol : Q) (ph : Q * Q) (r : result Q Q (field Q)) (w : list (field Q)) : bool :=
+  match r with RVals v => flist_close tol (map (fphase QO ph) v) w | _ => false end.
+Definition rsub_eqb (r : result Q Q (field Q)) (vals : list Q) (coords : list (pos Q))
+                    (od : list (string * list Q)) (at_ : attrs Q) : bool :=
+  match r with
+  | RSub s => qlist_eqb (ss_vals s) vals && poslist_eqb (ss_coords s) coords && od_eqb (ss_orig s) od
+              && attrs_eqb (ss_attrs s) at_
+  | _ => false end.
 """
 TOL_ROUND = "(1 # 1000000000000)"     # 1e-12 relative: where numpy rounds (hypot, phase product)
 TOL_EXACT = "0"
@@ -389,15 +404,19 @@ def stage_calc(ctx):
             elif full_field is not None and var in ("subset", "crop") or (var == "points" and full_field is not None
                                                                          and zmode == "same"):
                 ctx.explored += 1
-                if var == "subset":
-                    idx = sel
-                elif var == "points":
-                    idx = order
-                else:
-                    xi = [int(round(v / sx)) for v in det.x.values]
-                    yj = [int(round(v / sy)) for v in det.y.values]
-                    idx = [i * ny + j for i in xi for j in yj]
-                if not (np.array_equal(full_field[0][idx], fv) and np.array_equal(full_field[1][idx], hv)):
+                # look the pixels up BY POSITION on the full grid (no assumption on index conventions)
+                xi = {float(v): i for i, v in enumerate(base.x.values)}
+                yj = {float(v): j for j, v in enumerate(base.y.values)}
+                try:
+                    if kind == "grid":
+                        idx = [xi[float(x)] * ny + yj[float(y)] for x in fld.x.values for y in fld.y.values]
+                    else:
+                        src = fld if "x" in fld.coords else det     # results on detector_points keep only the point index
+                        idx = [xi[float(x)] * ny + yj[float(y)] for x, y in zip(src.x.values, src.y.values)]
+                    same = np.array_equal(full_field[0][idx], fv) and np.array_equal(full_field[1][idx], hv)
+                except (KeyError, IndexError):   # the detector's coordinates do not even lie on the full grid
+                    idx, same = None, False
+                if not same:
                     ctx.violation("values:mock:%s" % var, "value at a pixel differs between the full grid and the "
                                   "%s detector (mock theory, exact arithmetic)" % var,
                                   dict(kind="mock-values", variant=var, index=idx, **meta0))
@@ -536,6 +555,23 @@ def stage_subset(ctx):
                  odl, attrs_lit(sub.attrs)))
         exprs.append(e)
         metas.append(dict(what="make_subset_data", **m))
+    # every pixel of the image can be drawn (the range handed to the RNG is the whole image, no off-by-one):
+    # union of single-pixel draws over 25*n seeds (deterministic; chance of a miss on correct code ~ n*e^-25)
+    from holopy.core.metadata import data_grid
+    for nx, ny in [(1, 5), (4, 1), (2, 3), (3, 3)] + ([(5, 4), (1, 1), (6, 6)] if ctx.tier == "thorough" else []):
+        n = nx * ny
+        im = data_grid(np.arange(n, dtype=float).reshape(nx, ny), spacing=(0.5, 0.25))
+        seen_sel, seen_val = set(), set()
+        for seed in range(25 * n):
+            sub, sel = make_subset_data(im, pixels=1, return_selection=True, seed=seed)
+            seen_sel.add(int(sel[0]))
+            seen_val.add(float(sub.values[0]))
+        ctx.explored += 1
+        ctx.count("subset:coverage")
+        if seen_sel != set(range(n)) or seen_val != set(float(v) for v in range(n)):
+            ctx.violation("subset:coverage", "some pixels of a %dx%d image are never drawn by make_subset_data "
+                          "(single-pixel subsets, seeds 0..%d)" % (nx, ny, 25 * n - 1),
+                          dict(kind="subset-coverage", shape=[nx, ny], never=sorted(set(range(n)) - seen_sel)))
     mism, errors, _ = run_mismatch_cases("C07c", REQ, exprs, defs=DEFS)
     ctx.corr_cases += len(exprs)
     for e in errors:
@@ -660,7 +696,14 @@ def real_case(p):
     out.append(("points", float(np.abs(flat_order_values(calc(pts, scat, **kw), "flat") - hv).max()), scale))
     sub, sel = make_subset_data(d, pixels=p["pixels"], return_selection=True, seed=p["seed"])
     hs = calc(sub, scat, **kw)
-    out.append(("subset", float(np.abs(flat_order_values(hs, "flat") - hv[sel]).max()), scale))
+    # pixels are looked up BY POSITION on the full grid (no assumption on what a selection index means)
+    xi = {float(v): i for i, v in enumerate(d.x.values)}
+    yj = {float(v): j for j, v in enumerate(d.y.values)}
+    try:
+        where = [xi[float(x)] * ny + yj[float(y)] for x, y in zip(hs.x.values, hs.y.values)]
+        out.append(("subset", float(np.abs(flat_order_values(hs, "flat") - hv[where]).max()), scale))
+    except KeyError:
+        out.append(("subset", float("inf"), scale))
     if nx >= 2 and ny >= 2:
         cc = (p["crop"][0], p["crop"][1])
         a = subimage(h, cc, 2)
@@ -775,6 +818,96 @@ def stage_history(ctx):
         ctx.nontriv(("hist", tuple(ops)))
 
 
+def stage_run(ctx):
+    """the model's [run] (the object of theorem inputs_unchanged) against the implementation: a sequence of API
+    calls on ONE image; every result and the image left behind are compared with what [run] computes"""
+    import numpy as np
+    from holopy.core.metadata import make_subset_data, flat, update_metadata, to_vector
+    from holopy.core.process import subimage
+    from holopy.scattering import Sphere, calc_field
+    Mock = make_mock()
+    rng = ctx.subrng("run")
+    exprs, metas = [], []
+
+    def det_lits(im):
+        f = flat(im)
+        return (axeslit(im.x.values, im.y.values, im.z.values), qlist(f.values), attrs_lit(im.attrs))
+
+    for k in range(ctx.n(40, 400)):
+        im, meta = gen_image(rng)
+        mi, wl, kvec = rng.choice(wave_choices())
+        im = update_metadata(im, medium_index=mi, illum_wavelen=wl, illum_polarization=rng.choice([(1, 0), (0, 1)]))
+        nx, ny = meta["shape"]
+        c = [dy(rng, -3, 3), dy(rng, -3, 3), rng.choice([0.0, 0.0, dy(rng, 1, 6)])]
+        a, b, cc = float(rng.randint(-3, 3)), float(rng.randint(-3, 3)), float(rng.randint(-3, 3))
+        sph = Sphere(n=1.5, r=0.5, center=tuple(c))
+        th = Mock(a, b, cc)
+        ph = complex(np.exp(-1j * kvec * c[2]))
+        tol = TOL_EXACT if c[2] == 0.0 else TOL_ROUND
+        phl = "(%s, %s)" % (qlit(ph.real), qlit(ph.imag))
+        ax0, vals0, at0 = det_lits(im)
+        names = [rng.choice(["field", "subset", "crop", "meta", "flat"]) for _ in range(rng.randint(2, 5))]
+        before = snap(im)
+        ops, checks = [], []
+        for j, op in enumerate(names):
+            r = "r%d" % j
+            if op == "field":
+                fld = calc_field(im, sph, theory=th)
+                ops.append("OpField %s %s" % (qlit(kvec), poslit(c)))
+                checks.append("rvals_close %s %s %s %s" % (tol, phl, r, fieldlist(flat_order_values(fld, "grid"))))
+            elif op == "subset":
+                npix = rng.choice([1, nx * ny, rng.randint(1, nx * ny)])
+                sub, sel = make_subset_data(im, pixels=npix, return_selection=True, seed=rng.randint(0, 999))
+                od = sub.attrs["original_dims"]
+                ops.append("OpSubset %s" % zlist([int(v) for v in sel]))
+                checks.append("rsub_eqb %s %s %s %s %s" % (
+                    r, qlist(sub.values), listlit([poslit(p) for p in zip(sub.x.values, sub.y.values, sub.z.values)]),
+                    listlit(["(%s, %s)" % (strlit(k_), qlist(v)) for k_, v in od.items()]), attrs_lit(sub.attrs)))
+            elif op == "crop":
+                c2x, c2y = rng.randint(-1, 2 * nx + 1), rng.randint(-1, 2 * ny + 1)
+                sz = rng.choice([2, 2, 4, 1, 3])
+                cr = subimage(im, (c2x / 2.0, c2y / 2.0), sz)
+                ops.append("OpCrop (crop_idx %s %s %s) (crop_idx %s %s %s)" % (
+                    zlit(nx), zlit(c2x), zlit(sz), zlit(ny), zlit(c2y), zlit(sz)))
+                checks.append("rdet_eqb %s %s %s %s" % (
+                    r, axeslit(cr.x.values, cr.y.values, cr.z.values),
+                    qlist(cr.transpose('x', 'y', 'z').values.ravel()), attrs_lit(cr.attrs)))
+            elif op == "meta":
+                upd = [rng.choice([None, 1.0, 1.33]), rng.choice([None, 0.5, 0.75]),
+                       rng.choice([None, (1, 0), (3, 4)]), rng.choice([None, 0.125])]
+                out = update_metadata(im, *upd)
+                ops.append("OpMeta %s %s %s %s" % (attr_lit(upd[0]), attr_lit(upd[1]),
+                                                  attr_lit(None if upd[2] is None else to_vector(upd[2])), attr_lit(upd[3])))
+                oa, ov, oat = det_lits(out)
+                checks.append("rdet_eqb %s %s %s %s" % (r, oa, ov, oat))
+            else:
+                f = flat(im)
+                ops.append("OpFlat")
+                checks.append("rflat_eqb %s %s %s" % (
+                    r, listlit([poslit(p) for p in zip(f.x.values, f.y.values, f.z.values)]), qlist(f.values)))
+            ctx.count("run:" + op)
+        ax1, vals1, at1 = det_lits(im)          # the image as the call sequence left it
+        ctx.explored += 1
+        if snap(im) != before:
+            ctx.violation("purity:run", "after the call sequence %s the shared image has changed" % names,
+                          dict(kind="purity", op="run", ops=names, **meta))
+        rs = "; ".join("r%d" % j for j in range(len(names)))
+        e = ("(let '(d1, rs) := run QO 0 (F %s %s %s) (mkDet %s %s %s) %s in det_eqb d1 %s %s %s && "
+             "match rs with [%s] => %s | _ => false end)" % (
+                 qlit(a), qlit(b), qlit(cc), ax0, vals0, at0, listlit(["(%s)" % o for o in ops]), ax1, vals1, at1,
+                 rs, " && ".join("(%s)" % ch for ch in checks)))
+        exprs.append(e)
+        metas.append(dict(what="run", ops=names, center=c, wavevec=kvec, coef=[a, b, cc], **meta))
+        ctx.nontriv(("run", tuple(names), nx, ny))
+    mism, errors, _ = run_mismatch_cases("C07e", REQ, exprs, defs=DEFS, chunk=60)
+    ctx.corr_cases += len(exprs)
+    for e in errors:
+        ctx.violation("corr-eval-error", "model evaluation failed: " + e[:300], dict(kind="coq-error", log=e), nofail=True)
+    for i in mism:
+        ctx.disagree("corr:run", "model [run] and implementation disagree on the results of the call sequence %s "
+                     "or on the image it leaves behind" % metas[i]["ops"], dict(kind="corr-run", **metas[i]))
+
+
 def run(ctx):
     ctx.rule = ("layouts: shapes 1..9 x 1..9 (15% 1xN, 15% Nx1), 7 dyadic spacings (anisotropic 70%), z offset, "
                 "shifted origins, volumes nz<=3; detectors: grid / shifted grid / volume / explicit points (shuffled, "
@@ -783,22 +916,36 @@ def run(ctx):
                 "layouts, distinct (shape, pixels, seed) subsets, non-empty crops, distinct real-theory "
                 "configurations, distinct call sequences")
     ctx.clauses_proved = [
-        "flat index <-> (i,j,l) bijection for every shape (incl. 1xN, Nx1, volumes)",
-        "element flat_index(i,j,l) of the stacked coordinate list is (x_i, y_j, z_l) for arbitrary axes "
-        "(any spacing, anisotropy, origin)",
-        "for every pointwise theory: value at a grid pixel = f(position); grid = explicit points of its coordinates",
-        "selection commutes with the calculation for EVERY selection (subset, crop, permutation)",
-        "a crop is the subset crop_sel of the full image (coordinates and values), python-slice semantics",
-        "under the RNG contract (distinct, in range): subset keeps values / coordinates / attrs, remembers all "
-        "axes, selected positions are pairwise distinct; size = all pixels => a permutation of the image",
-        "translating grid and scatterer together hands the theory the same positions",
-        "model operations leave the detector unchanged for every call sequence; results are history independent",
-        "Q instance executed = R instance of the theorems (to_theory, make_coords)"]
+        "flat index <-> (i,j,l) bijection with ranges for every shape (incl. 1xN, Nx1, volumes) "
+        "[flat_unflat, unflat_flat, flat_index_in_range, unflat_in_range]",
+        "element flat_index(i,j,l) of the stacked coordinate list is (x_i, y_j, z_l) for arbitrary axes (any spacing, "
+        "anisotropy, origin), every flat pixel is such an element; make_coords pixel (i,j) = (i*sx, j*sy, z) "
+        "[grid_flat_order, grid_every_flat_pixel, grid_size, make_coords_pixel]",
+        "flat(): flat element flat_index(i,j,l) is stored pixel (l,i,j); from_flat(flat(.)) returns it "
+        "[flat_value_is_stored_pixel, from_flat_of_flat]",
+        "for ANY theory a grid and the explicit point list of its coordinates hand over the same positions; "
+        "detector_points broadcasting of a scalar z [grid_eq_points, detector_points_roundtrip, detector_points_scalar_z]",
+        "for every pointwise theory: equal positions => equal values between any two detectors; value at a grid pixel = "
+        "f(position) [value_depends_only_on_position, grid_pixel_value]",
+        "selection commutes with the calculation for EVERY selection (subset, crop, permutation) "
+        "[select_commutes, subset_calc_commutes, subset_calc_pixel]",
+        "a crop is the subset crop_sel of the full image (coordinates and calculated values); subimage's half-even / "
+        "python-slice index arithmetic always yields valid distinct pixels [crop_is_subset, crop_calc_commutes, "
+        "crop_indices_valid, crop_inside_even, crop_selection_valid]",
+        "under the RNG contract (distinct, in range): subset keeps values / coordinates / attrs, remembers all axes, "
+        "selected positions are pairwise distinct; size = all pixels => a permutation of the image "
+        "[rng_contract_meaning, subset_keeps, subset_of_all_pixels_is_permutation]",
+        "model operations leave the detector unchanged for every call sequence and results are history independent "
+        "[inputs_unchanged]; update_metadata leaves its input attrs alone: value overwrites, None never overwrites, "
+        "missing standard keys created as None, other keys kept [update_metadata_semantics]",
+        "translating grid and scatterer together hands any theory the same positions (over R) [translate_together]",
+        "Q instance executed = R instance of the theorems [to_theory_agrees_on_Q, make_coords_agrees_on_Q, "
+        "holo_px_agrees_on_Q]"]
     ctx.clauses_explored = [
         "agreement grid = points = subset = crop for the real theories (Mie, Mie superposition, Multisphere, "
         "T-matrix: they are pointwise only by inspection; MieLens / Lens: interpolation windows depend on the point set)",
         "np.random.choice honours its contract and make_subset_data is reproducible for a given seed (incl. seed 0, "
-        "after unrelated use of the global RNG)",
+        "after unrelated use of the global RNG); every pixel of the image can be drawn",
         "input purity of the Python objects (deep snapshots around every call, call sequences on one detector)"]
     ctx.trusted += [
         "oracle: scattering theory F : positions -> values, hypothesis 'pointwise' (F = map f); true by inspection "
@@ -816,6 +963,7 @@ def run(ctx):
     guarded(ctx, "crop_meta", stage_crop_meta, ctx)
     guarded(ctx, "real", stage_real, ctx)
     guarded(ctx, "history", stage_history, ctx)
+    guarded(ctx, "run", stage_run, ctx)
 
 
 def replay(ctx, data):
